@@ -61,6 +61,9 @@ def _states_base(tier, seed):
         # the same sum rules on the kernels the engine assembles (weights x coefficient classes) for lepton / anti-lepton pairs
         for chk, pair in itertools.product(("engine_adler", "engine_gls"), (["neutrino", "antineutrino"], ["electron", "positron"])):
             out.append({"check": chk, "nf": nf, "pair": pair})
+        # GLS / Bjorken on the kernels assembled for NC observables, incl. the single-flavour massless ones (F3_charm, g1_charm, ... when that quark is active)
+        for obs in ("F3_light", "g1_light", "F3_total", "g1_total", "F3_charm", "g1_charm", "F3_bottom", "g1_bottom"):
+            out.append({"check": "engine_nc", "nf": nf, "obs": obs})
     return out
 
 
@@ -194,7 +197,49 @@ def _engine_moments(kind, proj, nf, skip=()):
     return M, S, classes
 
 
+def _engine_nc(st):
+    """per parton: first moment of the assembled non-singlet coefficient of a NC F3 / g1 observable = LO weight x GLS/Bjorken series coefficient (valence / gluon / singlet classes aside)."""
+    import yadism.coefficient_functions as cf
+
+    nf, name = st["nf"], st["obs"]
+    kind, hv = name.split("_")
+    maxo = 3 if kind == "F3" else 2
+    r = yrun.runner({"scheme": "ZM-VFNS", "process": "NC", "projectile": "electron", "pto": maxo}, {name: [cards.kin(0.1, _Q2_FOR_NF[nf])]})
+    esf = r.observables[name].elements[0]
+    M = {o: np.zeros(14) for o in range(maxo + 1)}
+    S = {o: np.zeros(14) for o in range(maxo + 1)}
+    for cfe in cf.Combiner(esf).collect_elems():
+        cname = type(cfe.coeff).__name__
+        if cname != "NonSinglet":
+            continue
+        w = np.array([cfe.partons.get(pid, 0.0) for pid in yrun.PIDS], dtype=float)
+        for o in range(maxo + 1):
+            if not cfe.has_order(o):
+                continue
+            rsl = cfe.coeff[o]()
+            if rsl is None:
+                continue
+            M[o] += w * _moment(rsl, 1.0)
+            S[o] += np.abs(w) * _pieces(rsl)
+    viol, info = [], {}
+    lo = M[0]
+    nontrivial = bool(np.any(lo != 0))
+    for o in range(1, maxo + 1):
+        d = M[o] - lo * ref_nlo.gls_bjorken(o, nf)
+        sc = S[o]
+        if sc.max() == 0:
+            continue
+        tol = (1e-9 if o <= 1 else TOL_SUM) * (sc + sc.max())
+        info[f"engine_nc_o{o}"] = float(np.max(np.abs(d) / (sc + sc.max())))
+        if np.any(np.abs(d) > tol):
+            i = int(np.argmax(np.abs(d) - tol))
+            viol.append(_v(st, "engine-nc", f"{'GLS' if kind == 'F3' else 'Bjorken'} sum rule on the assembled NC kernels of {name} (ZM-VFNS, n_f={nf}): first moment of the non-singlet coefficient of parton {yrun.PIDS[i]} at order {o}: {M[o][i]:.8g}, expected LO weight {lo[i]:.4g} x series coefficient {ref_nlo.gls_bjorken(o, nf):.8g}"))
+    return {"violations": viol[:3], "nontrivial": nontrivial, "outcome": digest(["engine_nc", nf, name, {k: round(v, 12) for k, v in info.items()}]), "transitions": maxo, "sub": maxo, "info": info}
+
+
 def _engine(st):
+    if st["check"] == "engine_nc":
+        return _engine_nc(st)
     nf, chk = st["nf"], st["check"]
     viol, info = [], {}
     l, lbar = st["pair"]
